@@ -587,6 +587,9 @@ def run(chk):
         chk.guard(run_update_intermediate, fallback=[_replay_uiv])
         chk.discharge()
     chk.assume("Calculator.change (double buffer, undo, recycled arrays) and the numerical cells are not decided by proof")
+    chk.assume("precondition of _updateIntermediateValues (assumed, established by ParameterController.__init__): self.defns is "
+               "in topological order -- the clients of a definition come later in the list; id() is injective on live objects; "
+               "only definitions of the list are ever put into the dirty set")
     chk.assume("definitions are abstract objects of an uninterpreted sort; update()/update_from_calculator() of a "
                "definition are opaque calls recorded in ghost state (their own effect is trusted)")
     if not only or "bounded" in only:
